@@ -8,7 +8,8 @@ RULE = ("exhaustive (sk, m, r) over the plaintext space of p=23 (quick) / 23,47,
         "backends: encode, encrypt_with_randomness, decrypt, decode each compared with the Gallina model; scripted-RNG "
         "runs of encrypt / encrypt_exponential / encrypt_and_pok / decrypt_and_prove / encrypt_exp / decrypt_exp with "
         "boundary and random operands at 16, 62 and 2048 bits; ciphertext/key serialization in the loop; ristretto "
-        "round trips with boundary plaintexts; non-trivial = distinct (ctx, op, args)")
+        "round trips with boundary plaintexts; non-trivial = distinct (ctx, op, args)"
+        " Added in session 3: several (backend, parameter set) pairs interleaved in ONE process through the wire format, two orders;")
 
 
 def run(env):
